@@ -369,6 +369,11 @@ def decodeUnits (cfg : RichCfg) (texts : List Bytes) (a : List (List Nat)) : R (
       !(u.useDefault && u.hp.num == 0 && u.shield == 0 && u.armor == 0 && u.mineral == 0 && u.gas == 0 &&
         u.build == 0 && u.name == .null && u.weapons.all (fun w => w.2.1 == 0 && w.2.2 == 0)))
 
+/-- the sound entries of a WAV id table: slot `i` holds a sound iff its string id is not 0 -/
+def decodeWavIds (texts : List Bytes) (ids : List Nat) : List RWav :=
+  (List.range ids.length).filterMap fun i =>
+    if ids.getD i 0 ≠ 0 then some ⟨strById texts (ids.getD i 0), i⟩ else none
+
 /-! ### richDecode -/
 
 def sectionsNamed (secs : List DSection) (name : Bytes) : List SecVal :=
@@ -424,8 +429,7 @@ def richDecodeSection (cfg : RichCfg) (ctx : DecCtx) : DSection → R RSection
       | _ => .error .type
     else if n = nWAV then match v with
       | .arrays [ids] =>
-        .ok (.wav ((List.range ids.length).filterMap fun i =>
-          if ids.getD i 0 ≠ 0 then some ⟨strById ctx.texts (ids.getD i 0), i⟩ else none))
+        .ok (.wav (decodeWavIds ctx.texts ids))
       | _ => .error .type
     else .ok (.pass (.known n v))
 
